@@ -231,6 +231,22 @@ def rule_b(ctx):
             if t["k"] == "call" and callee_method(t) == op:
                 okf = direct_field(b, t["args"][0]) == (SUBR, "text_filter_stack")
         ctx.check(okf, "C15-B", "%s:filter-stack" % nm, b.span, b.id, "")
+    # the filtered (struck) text only reaches the wrapped block: layout decisions taken before it — the
+    # "ignore white space between blocks" test — look at the unfiltered text
+    ait = F.one(RTRAIT + "add_inline_text")
+    chs = ait.calls(lambda cd, t: callee_method(t) == "chars")
+    nfil = 0
+    for bb, t in chs:
+        at = ait.atoms(t["args"][0])
+        filtered = ("call", None) in at  # result of an indirect call through the text_filter_stack fn pointers
+        nfil += 1
+        ctx.check(not filtered and ("arg", 2) in at, "C15-B", "strikeout:whitespace-test-on-unfiltered-text#%d" % nfil, t["span"], ait.id,
+                  "the white-space-between-blocks test must look at the document text, not at the output of the strikeout "
+                  "filter (a struck space is not white space any more: the option would change the layout)")
+    ctx.floor("C15-B", "text inspections in add_inline_text", nfil, 1)
+    adds = ait.calls(lambda cd, t: ends(cd, "WrappedBlock::<T>::add_text"))
+    okc = len(adds) == 1 and ("call", None) in ait.atoms(adds[0][1]["args"][1])
+    ctx.check(okc, "C15-B", "strikeout:filtered-text-reaches-add_text", ait.span, ait.id, "")
     # --- borders: every border-line creation governed by draw_borders
     nb = 0
     for fn in ("render_table_tree", RTRAIT + "append_columns_with_borders", RTRAIT + "append_vert_row"):
